@@ -14,7 +14,7 @@ EXPL = ("Decides: store_into_bytes refuses exactly when buffer.len() < len_in_st
 
 
 def run(ctx):
-    cfgs = ["rel", "strict", "unsafe"] if ctx.tier == "quick" else ["rel", "strict", "dbg", "unsafe", "nodef", "alloc"]
+    cfgs = ["rel", "strict", "unsafe", "dbg"] if ctx.tier == "quick" else ["rel", "strict", "dbg", "unsafe", "nodef", "alloc"]
     ctx.progs(cfgs)  # build all configurations in parallel
     for c in cfgs:
         prog = ctx.prog(c)
@@ -31,6 +31,9 @@ def run(ctx):
         ctx.guard("C05", "parse-phase", lambda: parser.error_origin_by_phase(ctx, prog))
         ctx.guard("C05", "parse-look", lambda: parser.strict_lookahead(ctx, prog))
         ctx.guard("C05", "parse-forms", lambda: parser.entry_forms(ctx, prog))
+        if c == "dbg":
+            # nothing the formatter / parser does is hidden inside a debug-only assertion (it would vanish in release builds)
+            ctx.guard("C05", "assert-pure", lambda: features.assertions_pure(ctx, prog))
         if c == "unsafe":
             # every belief (invariant!) inside the formatter / parser helpers is backed by a run-time check of the safe build: a belief
             # that is not (e.g. a bound on the CALLER's buffer) panics in debug builds and is undefined behaviour under `unsafe`
